@@ -592,6 +592,16 @@ func (e *Env) evalCall(x *ECall) (TV, error) {
 			return TV{}, fmt.Errorf("str() of non-slice")
 		}
 		return TV{g.strOfBytes(e.st, v.t, v.ty), types.Typ[types.String]}, nil
+	case "iface": // iface(x): the interface value holding x with x's static type as dynamic type
+		v, err := argv(0)
+		if err != nil {
+			return TV{}, err
+		}
+		if isIface(v.ty) {
+			return v, nil
+		}
+		g.needIface()
+		return TV{app("mk_iface", g.typeTag(v.ty), g.box(v.t, v.ty)), types.Universe.Lookup("any").Type()}, nil
 	case "as": // as(x, "*T"): the payload of interface x viewed as a T (meaningful when typeof(x) == T)
 		v, err := argv(0)
 		if err != nil {
